@@ -1614,6 +1614,22 @@ def _signed_target(t):
     return None
 
 
+def _wide_target(t):
+    """True for a 64-bit signed integer dtype argument (np.int64, int, np.intp, "int64", np.longlong): products of lengths
+    of any data that fits in memory cannot overflow in it; False for a narrower integer type; None if it cannot be read"""
+    if isinstance(t, StrV) and t.s:
+        s = t.s
+    elif isinstance(t, ExtV):
+        s = t.dotted.split(".")[-1]
+    else:
+        return None
+    if s in ("int64", "int", "intp", "longlong", "int_", "long"):
+        return True
+    if s.startswith("int") or s.startswith("uint") or s in ("short", "byte", "intc", "ubyte", "ushort", "uintc"):
+        return False
+    return None
+
+
 @model("numpy.diff")
 def _np_diff(ex, args, kwargs, node):
     v = _arr(ex, args[0], node)
@@ -2298,6 +2314,8 @@ def num_method(ex, v: Num, name, args, kwargs, node):
         ex.emit("cast", node, value=v, dtype=dt, how="astype", target=args[0] if args else None)
         sg = _signed_target(args[0]) if args else None
         meta = dict(v.meta, signed=sg) if sg is not None else dict(v.meta)
+        if sg is not None:
+            meta["wide"] = _wide_target(args[0])
         cp = kwargs.get("copy")
         if cp is None or (isinstance(cp, Num) and cp.cond is not None and cp.cond.t == ("const", True)):
             # astype copies unless copy=False is passed: a store into the result does not reach the operand
